@@ -126,7 +126,7 @@ func cmdDNSPool(args []string) error {
 				continue
 			}
 			if err = checkRendered(e.Rule, r); err != nil {
-				return fmt.Errorf("renderer self-check %q: %v", e.Text, err)
+				return rejectedErr("the rule %q is parsed differently from what the specification says: %v", e.Text, err)
 			}
 		} else {
 			r, err := rules.NewRule(e.Text, 1)
